@@ -400,7 +400,7 @@ def search(seed, n_rounds):
 
 def entry(seed, tier, broken):
     """entry point for tools/check.py (props.py: search=("search.equals", "entry"))"""
-    return search(seed, 4000 if (tier == "thorough" or broken) else 150)
+    return search(seed, 4000 if (tier == "thorough" or broken) else (900 if tier == "escalated" else 150))
 
 
 def replay(rep):
